@@ -548,13 +548,14 @@ class IASolverBaseClass:  # pylint: disable=R0902
             Power of each user. If not provided, a value of 1 will be used
             for each user.
         """
-        self._clear_precoder_filter()
-
         if isinstance(Ns, int):
             Ns = np.ones(self.K, dtype=int) * Ns
         assert (not isinstance(Ns, int))
 
+        # Set (and validate) the power before anything is cleared: a
+        # rejected power leaves the current precoders untouched.
         self.P = P
+        self._clear_precoder_filter()
 
         # Local function that returns a normalized version of the input
         # numpy array
